@@ -49,7 +49,7 @@ def _registers(tier):
 def bounds(tier, seed):
     return {
         "registers": list(_registers(tier)),
-        "drives": {"const (Omega, delta)": TABLE, "sweep": "Omega 5, delta -8 -> +12 over 200 ns, evaluated at 0.25, 0.5, 0.75, 1"},
+        "drives": {"const (Omega, delta)": TABLE, "sweep": "Omega 5, delta -8 -> +12 over 200 ns, evaluated at 0.25, 0.5, 0.75, 1", "phasejump": "constant (Omega, delta), phase 0 -> 1.3 at half time"},
         "dt": [10, 50],
         "precision": [1e-5, 1e-8],
         "max_bond_dim": ["unbounded", 2],
@@ -65,7 +65,7 @@ def cases(tier, seed):
                 for prec in (1e-5, 1e-8):
                     yield {"reg": name, "drive": ["const", idx], "dt": 10, "precision": prec, "cap": None, "perm": None}
             continue
-        for drive in [("const", i) for i in range(len(TABLE))] + [("sweep", 0)]:
+        for drive in [("const", i) for i in range(len(TABLE))] + [("sweep", 0), ("phasejump", 0), ("phasejump", 2)]:
             for dt in (10, 50):
                 for prec in (1e-5, 1e-8):
                     for cap in (None, 2):
@@ -73,7 +73,7 @@ def cases(tier, seed):
                             continue
                         yield {"reg": name, "drive": list(drive), "dt": dt, "precision": prec, "cap": cap, "perm": None}
         if n <= 4:
-            for drive in (("const", 0), ("const", 2), ("sweep", 0)):
+            for drive in (("const", 0), ("const", 2), ("sweep", 0), ("phasejump", 0)):
                 for p in itertools.permutations(range(n)):
                     yield {"reg": name, "drive": list(drive), "dt": 10, "precision": 1e-8, "cap": None, "perm": list(p)}
 
@@ -88,6 +88,11 @@ def run_case(case):
         om, de = TABLE[idx]
         pulses = [{"amp": ["const", 100, om], "det": ["const", 100, de], "phase": 0.0}]
         ev = [0.5, 1.0] if case["reg"] != "grid8" else [0.1, 0.5, 1.0]  # right after the very first step as well
+    elif kind == "phasejump":
+        # amplitude and detuning identical in all steps, only the phase changes half way: a different Hamiltonian with another ground state
+        om, de = TABLE[idx]
+        pulses = [{"amp": ["const", 50, om], "det": ["const", 50, de], "phase": 0.0}, {"amp": ["const", 50, om], "det": ["const", 50, de], "phase": 1.3}]
+        ev = [0.5, 0.8, 1.0]
     else:
         om = 5.0
         pulses = [{"amp": ["const", 200, 5.0], "det": ["ramp", 200, -8.0, 12.0], "phase": 0.0}]
